@@ -11,6 +11,10 @@ Builds on harness/llh_fixtures.py (read-only, shared).  What is added here:
       rA[k,e] = cA[k,e] * exp(sA[k,e] * (gamma_k - 2))          factor A of the PDF ratio   (StubPDFRatio)
       rB[k,e] = cB[k,e] * exp(sB[k,e] * (ecut_k  - 1))          factor B                    (StubPDFRatio)
       Y[j,k]  = y0[j,k] * exp(u[j,k]*(gamma_k - 2) + v[j,k]*(ecut_k - 1))    detector signal yield (StubDetSigYield)
+                + lg[j,k]*(gamma_k - gamma_k(theta)) + lx[j,k]*(ecut_k - ecut_k(theta))
+  y0 may be 0 (single entries, a whole dataset row = dataset without any signal yield, a whole source column); the
+  optional linear terms lg / lx vanish at the case's own parameter point theta, so a zero yield can still carry a
+  non-zero yield gradient there;
   a source without the local parameter uses gamma = 2 resp. ecut = 1;
 * the real chain  PDFRatioProduct(A, B) -> SourceWeightedPDFRatio -> ZeroSigH0SingleDatasetTCLLHRatio (per
   dataset) -> MultiDatasetTCLLHRatio  with the real SrcDetSigYieldWeightsService /
@@ -21,7 +25,9 @@ A case is a JSON-able dict:
   K, groups [sizes], W [K],
   layout: list of  {'ns': True}  |  {'fixed': bool, 'map': [K x (-1 unmapped | 0 gamma | 1 ecut)], 'value': float}
   theta:  values of the floating parameters in declaration order (including ns)
-  ds:     list of {'N', 'E', 'mask': None | K x E 0/1, 'cA','sA','cB','sB': K x E, 'y0','u','v': [K]}
+  ds:     list of {'N', 'E', 'mask': None | K x E 0/1, 'cA','sA','cB','sB': K x E, 'y0','u','v': [K],
+                   optional 'lg','lx': [K]}
+  A dataset whose yield row is all zero must not have selected events (its source-weighted ratio would be 0/0).
 """
 import numpy as np
 
@@ -110,11 +116,21 @@ def leaf_tables(case, j, loc):
     return rA, rB, sA * rA, sB * rB
 
 
+def lin_terms(case, j):
+    d = case['ds'][j]
+    K = case['K']
+    return (np.array(d.get('lg') or [0.0] * K, dtype=np.float64), np.array(d.get('lx') or [0.0] * K, dtype=np.float64))
+
+
 def yield_tables(case, j, loc):
+    """yields and their local derivatives at the local values `loc` (linear terms are centred at the case's theta)"""
     d = case['ds'][j]
     y0, u, v = (np.array(d[n], dtype=np.float64) for n in ('y0', 'u', 'v'))
-    Y = y0 * np.exp(u * (loc[:, 0] - DEFAULTS[0]) + v * (loc[:, 1] - DEFAULTS[1]))
-    return Y, u * Y, v * Y
+    lg, lx = lin_terms(case, j)
+    loc0 = local_values(case)
+    E = y0 * np.exp(u * (loc[:, 0] - DEFAULTS[0]) + v * (loc[:, 1] - DEFAULTS[1]))
+    Y = E + lg * (loc[:, 0] - loc0[:, 0]) + lx * (loc[:, 1] - loc0[:, 1])
+    return Y, u * E + lg, v * E + lx
 
 
 def mask_of(case, j):
@@ -179,11 +195,19 @@ def build(case):
     u = np.array([d['u'] for d in case['ds']], dtype=np.float64)
     v = np.array([d['v'] for d in case['ds']], dtype=np.float64)
 
-    def Y(params):
+    lg = np.array([lin_terms(case, j)[0] for j in range(J)], dtype=np.float64)
+    lx = np.array([lin_terms(case, j)[1] for j in range(J)], dtype=np.float64)
+    loc0 = local_values(case)
+
+    def Yexp(params):
         g, x = _loc(params, 0, K), _loc(params, 1, K)
         return y0 * np.exp(u * (g - DEFAULTS[0]) + v * (x - DEFAULTS[1]))
 
-    dY = {'gamma': lambda params: u * Y(params), 'ecut': lambda params: v * Y(params)}
+    def Y(params):
+        g, x = _loc(params, 0, K), _loc(params, 1, K)
+        return Yexp(params) + lg * (g - loc0[:, 0]) + lx * (x - loc0[:, 1])
+
+    dY = {'gamma': lambda params: u * Yexp(params) + lg, 'ecut': lambda params: v * Yexp(params) + lx}
     (dsy, sdw, dswf) = fx.make_weight_services(shg_mgr, Y, dY=dY)
     B.services = (dsy, sdw, dswf)
     B.tdms, B.inner, B.outer, B.llhs = [], [], [], []
